@@ -247,6 +247,9 @@ func (c ContentModel) depth() int {
 type jsonChecker struct {
 	res  *vt.Result
 	what string
+	// metaSuperset: the JSON is a message the SDK sent; it may carry _meta keys of its own next to the
+	// handler's (it stamps ids into _meta elsewhere), the handler's must all be there.
+	metaSuperset bool
 }
 
 func (k *jsonChecker) failf(format string, a ...any) {
@@ -324,7 +327,7 @@ func (k *jsonChecker) jsonIs(path string, m map[string]json.RawMessage, key, wan
 		if ok && !emptyOK {
 			k.failf("%s: unexpected member %q: %s", path, key, raw)
 		}
-		if ok && emptyOK && string(raw) != "{}" && string(raw) != "null" {
+		if ok && emptyOK && string(raw) != "{}" && string(raw) != "null" && !(key == "_meta" && k.metaSuperset) {
 			k.failf("%s: member %q is %s, want absent or empty", path, key, raw)
 		}
 		return
@@ -335,6 +338,17 @@ func (k *jsonChecker) jsonIs(path string, m map[string]json.RawMessage, key, wan
 	}
 	var got any
 	if err := json.Unmarshal(raw, &got); err != nil || !reflect.DeepEqual(got, jsonAny(wantText)) {
+		if gm, ok := got.(map[string]any); ok && err == nil && key == "_meta" && k.metaSuperset {
+			missing := false
+			for mk, mv := range jsonObj(wantText) {
+				if gv, ok := gm[mk]; !ok || !reflect.DeepEqual(gv, mv) {
+					missing = true
+				}
+			}
+			if !missing {
+				return
+			}
+		}
 		k.failf("%s: member %q is %s, want %s", path, key, raw, wantText)
 	}
 }
@@ -501,14 +515,34 @@ func deepEq(a, b reflect.Value, path string) string {
 	case reflect.Pointer, reflect.Interface:
 		if a.IsNil() || b.IsNil() {
 			if a.IsNil() != b.IsNil() {
+				// a pointer to an all-zero struct carries no more than a nil pointer (it may be left out on the wire)
+				if nn := map[bool]reflect.Value{true: b, false: a}[a.IsNil()]; a.Kind() == reflect.Pointer && nn.Elem().Kind() == reflect.Struct && nn.Elem().IsZero() {
+					return ""
+				}
 				// an interface holding an empty map/slice equals a nil interface? no: keep strict
 				return fmt.Sprintf("%s: nil vs non-nil", path)
 			}
 			return ""
 		}
+		if a.Kind() == reflect.Interface && a.Elem().Type() != b.Elem().Type() && a.CanInterface() && b.CanInterface() {
+			// free-form JSON held in an `any`: a decoder may choose another Go representation (json.Number for
+			// float64, ...); compare what the two hold as JSON values
+			ja, ea := json.Marshal(a.Interface())
+			jb, eb := json.Marshal(b.Interface())
+			if ea == nil && eb == nil {
+				va, _ := parseAny(ja)
+				vb, _ := parseAny(jb)
+				if valEq(va, vb) {
+					return ""
+				}
+			}
+		}
 		return deepEq(a.Elem(), b.Elem(), path)
 	case reflect.Struct:
 		for i := 0; i < a.NumField(); i++ {
+			if !a.Type().Field(i).IsExported() {
+				continue // private bookkeeping (caches, raw bytes kept by a decoder) is not part of the value
+			}
 			if d := deepEq(a.Field(i), b.Field(i), path+"."+a.Type().Field(i).Name); d != "" {
 				return d
 			}
